@@ -96,6 +96,13 @@ CHECKS = {
           "enumerated for nreqs<=4 (quick) / <=6 (thorough).",
           "Pointer observed through priority_reg.out (property anchor).",
           "DESIGN.md 3/C19"),
+  "C09": ("exploration",
+          "property-based testing (Hypothesis) with single-defect mutation of generated legal designs; expected exception class derived from a bit-level driver-set model and the port-direction table",
+          "Legal generated designs must elaborate under every statement/definition order; each of 19 injected defect kinds (driver conflicts "
+          "between whole/part/field/overlapping-slice writers and nets, driverless net, connection loop, six port-direction rules, five "
+          "assignment-operator misuses) must raise the corresponding pymtl3 error class under every order.",
+          "Where a defect necessarily coincides with another (e.g. writing a child's driven output) either corresponding class is accepted.",
+          "DESIGN.md 3/C09"),
 }
 
 NOT_YET = {}
